@@ -161,6 +161,13 @@ partial def loop (h : IO.FS.Stream) (out : IO.FS.Stream) (q : TQ) (sch : Sch := 
     let (sch', o) := schLine sch ((line.trimAscii.toString.splitOn " ").filter (· ≠ ""))
     out.putStrLn o
     loop h out q sch'
+  else if line.startsWith "ppar" then
+    let w := ((line.trimAscii.toString.splitOn " ").filter (· ≠ "")).drop 1
+    let rem := w.map fun ch => if ch == "-" then [] else (ch.splitOn ",").filterMap String.toInt?
+    let evs := ppar rem
+    out.putStrLn ("merge " ++ " ".intercalate (evs.map fun e =>
+      (match e.1 with | some c => toString c | none => "r") ++ ":" ++ toString e.2))
+    loop h out TQ.init {}
   else if line.startsWith "score" then
     let times := ((line.trimAscii.toString.splitOn " ").filter (· ≠ "")).drop 1 |>.filterMap String.toInt?
     out.putStrLn ("listing " ++ fmtItems (Score.init.addAll times).listing)
